@@ -24,7 +24,10 @@ USERS = {"diana": {"name": "Diana", "email": "diana@example.org", "email_verifie
          "bob": {"name": "Bob", "email": "bob@example.org", "email_verified": False}}
 CLIAUTH = ["client_secret_post", "client_secret_basic", "client_secret_jwt", "private_key_jwt"]
 
-def make_op(jwt_tokens=False, extra=None, user="diana", more_endpoints=None):
+def make_op(jwt_tokens=False, extra=None, user="diana", more_endpoints=None, keys=None):
+    """keys: None = password+salt per handler, provider signing keys generated per instance (the historical default of this harness);
+    "pwsalt" / "key" / "jwks_def" = the three ways a configuration pins the token-protection keys, with the provider's
+    signing keys pinned by a key file as well (C13: every instance built from this configuration shares its key material)"""
     tha = {
         "code": {"lifetime": 600, "kwargs": {"crypt_conf": {"kwargs": {"password": "0987654321abcdefghijklmnop...---", "salt": "abcdefghijklmnop", "iterations": 1}}}},
         "token": {"lifetime": 3600, "kwargs": {"crypt_conf": {"kwargs": {"password": "1987654321abcdefghijklmnop...---", "salt": "abcdefghijklmnop", "iterations": 1}}}},
@@ -34,6 +37,16 @@ def make_op(jwt_tokens=False, extra=None, user="diana", more_endpoints=None):
     if jwt_tokens:
         tha["token"] = {"class": "idpyoidc.server.token.jwt_token.JWTToken", "kwargs": {"lifetime": 3600, "aud": ["https://example.org/appl"]}}
         tha["refresh"] = {"class": "idpyoidc.server.token.jwt_token.JWTToken", "kwargs": {"lifetime": 86400, "aud": ["https://example.org/appl"]}}
+    if keys == "key":
+        for i, k in enumerate(("code", "token", "refresh")):
+            if "crypt_conf" in tha[k].get("kwargs", {}):
+                tha[k]["kwargs"]["crypt_conf"] = {"kwargs": {"key": (b"%d" % i) * 32}}
+    elif keys == "jwks_def":
+        for k in ("code", "token", "refresh"):
+            if "crypt_conf" in tha[k].get("kwargs", {}):
+                tha[k] = {"lifetime": tha[k]["lifetime"]}
+        tha["jwks_def"] = {"private_path": os.path.join(BASEDIR, "private", "token_jwks.json"), "read_only": False,
+                           "key_defs": [{"type": "oct", "bytes": 24, "use": ["enc"], "kid": k} for k in ("code", "token", "refresh")]}
     conf = {
         "issuer": "https://example.com/",
         "httpc_params": {"verify": False, "timeout": 1},
@@ -60,6 +73,8 @@ def make_op(jwt_tokens=False, extra=None, user="diana", more_endpoints=None):
         "session_params": {"encrypter": {"kwargs": {"password": "3987654321abcdefghijklmnop...---", "salt": "abcdefghijklmnop", "iterations": 1}}},
         "cookie_handler": {"class": CookieHandler, "kwargs": {"sign_key": "ghsNKDDLshZTPn974nOsIGhedULrsqnsGoBFBLwUKuJhE2ch", "name": {"session": "oidc_op", "register": "oidc_op_reg", "session_management": "oidc_op_sman"}}},
     }
+    if keys:
+        conf["keys"] = {"private_path": os.path.join(BASEDIR, "private", "jwks.json"), "read_only": False, "uri_path": "jwks.json", "key_defs": KEYDEFS}
     if more_endpoints:
         conf["endpoint"].update(more_endpoints)
     if extra:
